@@ -10,18 +10,23 @@ from checks.zdirlab import Lab, norm_page
 
 PROPERTY = "C06"
 CONTRACTS = ["contracts.c06"]
-LEVEL = "exploration"
+LEVEL = "other"
 EXPLANATION = (
-    "Contract-based (bounded-symbolic): _get_file_hash_map - the map a reindex compares with the stored one - has one entry per "
-    "path considered, keyed by the path relative to the notes directory, whose value is the digest of that file's current "
-    "content, lists nothing else and leaves the file system untouched (verified for every list of at most 3 / 4 paths over the "
-    "file-system model, contents and names fully symbolic; _hash_file and strip_zdir through assumed contracts). "
-    "The equivalence 'history of edits interleaved with reindex runs == fresh index of the final files' itself is NOT decided "
-    "deductively: it is checked on generated histories (edit / add / delete / move notes, add / delete / rename pages, header "
-    "edits, old-mtime edits, reindex with and without explicit paths, days advancing, directed wildcard / case page-name "
-    "pairs) through the real handlers and SQLite, comparing canonical dumps (bounded)."
+    "Contract-based (bounded-symbolic): reindex_database (plain reindex) is verified against an ABSTRACT index - a map from page "
+    "name to the content the page was compiled from, maintained by stubs of SQLRepo.remove_file_by_name / add_file and "
+    "walk_zorg_page: from every state in which the stored hash map describes the index (the invariant each create / reindex "
+    "establishes), the index afterwards holds exactly the pages on disk, each with its current content - which is what a fresh "
+    "`db create` yields in this view - the stored hash map describes the new index again (the invariant is re-established), no "
+    "page is written, and the command refuses (RuntimeError) exactly when a new or changed page has syntax errors "
+    "(<= 2 pages on disk, <= 2 stored entries, names / contents / digests fully symbolic, empty error whitelist; A-SHA as an "
+    "explicit precondition). _get_file_hash_map lists exactly the paths considered with the digests of their current contents. "
+    "Not decided deductively: the closure of the invariant under the write-back of ZIDs / stamps and under reindex runs with "
+    "explicit paths, and that the real ORM implements the abstract index: generated histories (edit / add / delete / move notes, "
+    "continuation-line edits, restoring earlier contents, add / delete / rename pages, header edits, old-mtime edits, reindex with "
+    "and without explicit paths, days advancing), scripted histories and wildcard / case page-name pairs are run through the real "
+    "handlers and SQLite and compared with a fresh `db create` of the final files (bounded)."
 )
-ASSUMPTIONS = ["A-FS for the contract part", "A-SHA: _hash_file returns a function of the file content (assumed contract); SHA-256 collisions do not occur on the files involved"]
+ASSUMPTIONS = ["A-FS for the contract part", "abstract index: SQLRepo.add_file / remove_file_by_name / walk_zorg_page / _get_zo_paths_to_index / _get_error_file_whitelist / _check_for_modified_notes / SQLSession.commit are stubs (assumed contracts written as models, listed in trusted_base as STUB ...)", "A-SHA: _hash_file returns a function of the file content (assumed contract); SHA-256 collisions do not occur on the files involved"]
 TRUSTED = ["SQLAlchemy/SQLite, antlr4 (end-to-end part runs the real stack)", "z3 5.1 / cvc5 1.0.3", "pyvc symbolic interpreter (engine/)"]
 
 
